@@ -495,8 +495,13 @@ void scan_deps(const std::string& orig_portname, std::string cur_portname,
           cur_portname.resize(last_slash), is_parent = true)
     {
         // a parent is looked up as "name/": only then apropos finds "name#N/"
-        const Port* port = ports.apropos(is_parent ? (cur_portname + "/").c_str()
-                                                   : cur_portname.c_str());
+        // the directory that holds the port can be enabled as a whole by one
+        // of its own ports (rSelf(.., rEnabledBy(x))): its "self:" port too
+        const Port* const port_and_self[2] = {
+            ports.apropos(is_parent ? (cur_portname + "/").c_str()
+                                    : cur_portname.c_str()),
+            ports.apropos(rel2abs("self:", cur_portname).c_str()) };
+        for(const Port* port : port_and_self)
         if(port)
         {
             const char* dep_types[3] = { "enabled by", "depends", "default depends" };
